@@ -157,6 +157,10 @@ fn check(args: &Args) -> i32 {
             }
             let sc = poolsim::PoolSim { property: leak(property) };
             parts.push(run_part(&sc, &cfg("poolsim"), &known, &mut verdict));
+            if property == "C06" {
+                // the transport must connect to the authority of the URI (real TcpTransport, static resolver)
+                parts.push(run_part(&realconnect::RealConnectSim { property: "C06" }, &cfg("realconnect"), &known, &mut verdict));
+            }
             if property == "C15" {
                 // the same bound seen through a client built by Client::builder()
                 parts.push(run_part(&e2e::E2eIdleSim, &cfg("e2eidle"), &known, &mut verdict));
